@@ -253,3 +253,78 @@ Example iso_example :
   | None => ([], false, false)
   end = ([0; 3; 1; 2], true, true).
 Proof. vm_compute. reflexivity. Qed.
+
+(** * An executable test of [graph_iso] (run by the check on the graphs the real parser returns) *)
+Fixpoint list_eqb {A} (f : A -> A -> bool) (a b : list A) : bool :=
+  match a, b with [], [] => true | x :: a', y :: b' => f x y && list_eqb f a' b' | _, _ => false end.
+Definition gref_eqb (a b : gref) : bool :=
+  match a, b with GElem i, GElem j => Nat.eqb i j | GNull, GNull => true | GStub u, GStub v => str_eqb u v | _, _ => false end.
+Definition gitem_eqb (a b : gitem) : bool :=
+  match a, b with GStr x, GStr y => str_eqb x y | GRef r, GRef q => gref_eqb r q | _, _ => false end.
+Definition gattr_eqb (a b : gattr) : bool :=
+  str_eqb (ga_name a) (ga_name b) && str_eqb (ga_type a) (ga_type b) && Bool.eqb (ga_arr a) (ga_arr b) && list_eqb gitem_eqb (ga_items a) (ga_items b).
+Definition gelem_eqb (a b : gelem) : bool :=
+  str_eqb (ge_type a) (ge_type b) && str_eqb (ge_id a) (ge_id b) && str_eqb (ge_name a) (ge_name b) && list_eqb gattr_eqb (ge_attrs a) (ge_attrs b).
+Fixpoint nat_nodup (l : list nat) : bool :=
+  match l with [] => true | x :: r => negb (existsb (Nat.eqb x) r) && nat_nodup r end.
+Definition graph_iso_b (s : nat -> nat) (g g' : gdoc) : bool :=
+  Nat.eqb (length g') (length g) &&
+  forallb (fun i => Nat.ltb (s i) (length g') && gelem_eqb (nth (s i) g' dflt_gelem) (ren_elem s (nth i g dflt_gelem))) (seq 0 (length g)) &&
+  nat_nodup (map s (seq 0 (length g))).
+
+Lemma list_eqb_eq {A} (f : A -> A -> bool) : (forall x y, f x y = true -> x = y) -> forall a b, list_eqb f a b = true -> a = b.
+Proof.
+  intros Hf. induction a as [|x a IH]; intros [|y b] H; cbn [list_eqb] in H; try discriminate; [reflexivity|].
+  apply andb_prop in H. destruct H as [H1 H2]. f_equal; [now apply Hf|now apply IH].
+Qed.
+Lemma gitem_eqb_eq a b : gitem_eqb a b = true -> a = b.
+Proof.
+  destruct a as [x|[i| |u]]; destruct b as [y|[j| |v]]; cbn [gitem_eqb gref_eqb]; intros H; try discriminate; try reflexivity.
+  - apply str_eqb_eq in H. now subst.
+  - apply Nat.eqb_eq in H. now subst.
+  - apply str_eqb_eq in H. now subst.
+Qed.
+Lemma gattr_eqb_eq a b : gattr_eqb a b = true -> a = b.
+Proof.
+  destruct a as [n t r l]; destruct b as [n' t' r' l']. unfold gattr_eqb. cbn [ga_name ga_type ga_arr ga_items]. intros H.
+  apply andb_prop in H. destruct H as [H H4]. apply andb_prop in H. destruct H as [H H3]. apply andb_prop in H. destruct H as [H1 H2].
+  apply str_eqb_eq in H1. apply str_eqb_eq in H2. apply Bool.eqb_prop in H3. apply (list_eqb_eq _ gitem_eqb_eq) in H4. now subst.
+Qed.
+Lemma gelem_eqb_eq a b : gelem_eqb a b = true -> a = b.
+Proof.
+  destruct a as [t i n l]; destruct b as [t' i' n' l']. unfold gelem_eqb. cbn [ge_type ge_id ge_name ge_attrs]. intros H.
+  apply andb_prop in H. destruct H as [H H4]. apply andb_prop in H. destruct H as [H H3]. apply andb_prop in H. destruct H as [H1 H2].
+  apply str_eqb_eq in H1. apply str_eqb_eq in H2. apply str_eqb_eq in H3. apply (list_eqb_eq _ gattr_eqb_eq) in H4. now subst.
+Qed.
+Lemma nat_nodup_NoDup l : nat_nodup l = true -> NoDup l.
+Proof.
+  induction l as [|x l IH]; intros H; [constructor|]. cbn [nat_nodup] in H. apply andb_prop in H. destruct H as [Hx Hl].
+  constructor; [|now apply IH]. intros Hin. apply negb_true_iff in Hx.
+  assert (existsb (Nat.eqb x) l = true) by (apply existsb_exists; exists x; split; [assumption|apply Nat.eqb_refl]). congruence.
+Qed.
+
+Theorem graph_iso_b_sound s g g' : graph_iso_b s g g' = true -> graph_iso s g g'.
+Proof.
+  unfold graph_iso_b. intros H. apply andb_prop in H. destruct H as [H H3]. apply andb_prop in H. destruct H as [H1 H2].
+  apply Nat.eqb_eq in H1. rewrite forallb_forall in H2. apply nat_nodup_NoDup in H3. split; [exact H1|split].
+  - intros i Hi. specialize (H2 i). rewrite in_seq in H2. specialize (H2 ltac:(lia)). apply andb_prop in H2. destruct H2 as [A B].
+    apply Nat.ltb_lt in A. apply gelem_eqb_eq in B. split; assumption.
+  - intros i j Hi Hj E.
+    assert (Li : i < length (map s (seq 0 (length g)))) by (now rewrite map_length, seq_length).
+    assert (Lj : j < length (map s (seq 0 (length g)))) by (now rewrite map_length, seq_length).
+    apply (proj1 (NoDup_nth (map s (seq 0 (length g))) 0) H3 i j Li Lj).
+    rewrite !(nth_indep _ 0 (s 0)) by assumption. rewrite !map_nth, !seq_nth by assumption. exact E.
+Qed.
+
+Example graph_iso_b_example :
+  match nest_doc ex_graph (ex_isroot pinned_rootcfg ex_graph) false with
+  | Some d => match link (unnest d) with Some g' => graph_iso_b (by_id ex_graph g') ex_graph g' | None => false end
+  | None => false
+  end = true /\
+  (* a reference redirected to another element is not an isomorphic graph *)
+  graph_iso_b (by_id ex_shared ex_shared) ex_shared ex_shared = true /\
+  graph_iso_b (by_id ex_shared [nth 0 ex_shared dflt_gelem; {| ge_type := [85%N]; ge_id := [98%N]; ge_name := [];
+      ge_attrs := [ {| ga_name := [107%N]; ga_type := s_element; ga_arr := false; ga_items := [GRef (GElem 0)] |} ] |}])
+    ex_shared [nth 0 ex_shared dflt_gelem; {| ge_type := [85%N]; ge_id := [98%N]; ge_name := [];
+      ge_attrs := [ {| ga_name := [107%N]; ga_type := s_element; ga_arr := false; ga_items := [GRef (GElem 0)] |} ] |}] = false.
+Proof. vm_compute. repeat split. Qed.
